@@ -40,7 +40,11 @@ def candidates():
 def sh(cmd, cwd, timeout=1800, env=None):
     e = dict(os.environ, CARGO_NET_OFFLINE="true")
     e.update(env or {})
-    p = subprocess.run(cmd, cwd=cwd, shell=True, stdout=subprocess.PIPE, stderr=subprocess.STDOUT, timeout=timeout, env=e)
+    try:
+        p = subprocess.run("exec timeout -k 5 %d bash -c %s" % (timeout, json.dumps(cmd)), cwd=cwd, shell=True,
+                           stdout=subprocess.PIPE, stderr=subprocess.STDOUT, timeout=timeout + 30, env=e)
+    except subprocess.TimeoutExpired:
+        return 124, "timeout"
     return p.returncode, p.stdout.decode(errors="replace")
 
 
@@ -52,6 +56,9 @@ def worker(args):
     shutil.copy("/repo/Cargo.lock", wt + "/Cargo.lock")
     res = []
     for (f, i, k, old, new) in muts:
+        if "%s:%d:%d" % (f, i + 1, k) in KNOWN:
+            res.append(dict(KNOWN["%s:%d:%d" % (f, i + 1, k)], old=old.strip(), new=new.strip()))
+            continue
         subprocess.run(["git", "-C", wt, "checkout", "-q", "--", "src"], check=True)
         path = "%s/src/%s" % (wt, f)
         lines = open(path).read().split("\n")
@@ -66,9 +73,9 @@ def worker(args):
             res.append(rec)
             print(mid, rec["status"], flush=True)
             continue
-        rc, out = sh("cargo test --workspace --no-fail-fast --offline", wt, 1800)
+        rc, out = sh("cargo test --workspace --no-fail-fast --offline", wt, 600)
         if rc != 0:
-            rec["status"] = "killed by the crate's own suite"
+            rec["status"] = "killed by the crate's own suite" + (" (hangs)" if rc == 124 else "")
             res.append(rec)
             print(mid, rec["status"], flush=True)
             continue
@@ -108,7 +115,13 @@ def worker(args):
     return res
 
 
+KNOWN = {}
+
+
 def main():
+    global KNOWN
+    if os.path.exists("/root/scratch/auto_partial.json"):
+        KNOWN = json.load(open("/root/scratch/auto_partial.json"))
     random.seed(20261002)
     c = candidates()
     random.shuffle(c)
